@@ -263,6 +263,92 @@ def check_step_tile(ctx, fmt, cls, rule='R-STEPTILE'):
     return 1
 
 
+def _is_generator_fn(fn):
+    return any(isinstance(n, (ast.Yield, ast.YieldFrom)) for n in ast.walk(fn) if not (isinstance(n, (ast.FunctionDef, ast.Lambda)) and n is not fn))
+
+
+def _yields_oneshot(src, mod, cls, e, depth=0):
+    """does expression e evaluate to a one-shot iterator?  generator expression, map/filter/zip/iter, a call of a generator function
+    (resolved through this module's imports), or a call of a method of the class that returns one"""
+    if depth > 3:
+        return False
+    if isinstance(e, ast.GeneratorExp):
+        return True
+    if not isinstance(e, ast.Call):
+        return False
+    d = dotted(e.func) or ''
+    if d in ('map', 'filter', 'zip', 'iter', 'reversed', 'enumerate'):
+        return True
+    if isinstance(e.func, ast.Name):
+        tgt = None
+        if e.func.id in mod.functions:
+            tgt = (mod, mod.functions[e.func.id])
+        elif e.func.id in mod.imports:
+            r = src.resolve_import(mod, e.func.id)
+            if r is not None:
+                m2 = src.mod(r[0])
+                if r[1] in m2.functions:
+                    tgt = (m2, m2.functions[r[1]])
+        if tgt is not None:
+            if _is_generator_fn(tgt[1]):
+                return True
+            rets = [st for st in iter_stmts(tgt[1].body) if isinstance(st, ast.Return) and st.value is not None]
+            return bool(rets) and all(_yields_oneshot(src, tgt[0], None, st.value, depth + 1) for st in rets)
+    if isinstance(e.func, ast.Attribute) and isinstance(e.func.value, ast.Name) and e.func.value.id == 'self' and cls is not None:
+        q = cls + '.' + e.func.attr
+        if q in mod.functions:
+            f2 = mod.functions[q]
+            if _is_generator_fn(f2):
+                return True
+            rets = [st for st in iter_stmts(f2.body) if isinstance(st, ast.Return) and st.value is not None]
+            return bool(rets) and all(_yields_oneshot(src, mod, cls, st.value, depth + 1) for st in rets)
+    return False
+
+
+def check_stored_generators(ctx, rule='R-ONESHOT'):
+    src = ctx.src
+    ncls = 0
+    for m in src.all_modules():
+        if not (m.relpath.startswith(CAMX) and m.relpath.endswith('/Read.py')):
+            continue
+        for cname in sorted(m.classes):
+            meths = dict((q.split('.', 1)[1], f) for q, f in m.functions.items() if q.startswith(cname + '.') and q.count('.') == 1)
+            if not meths:
+                continue
+            ncls += 1
+            stored = {}
+            for mn, f in meths.items():
+                for st in iter_stmts(f.body):
+                    if isinstance(st, ast.Assign):
+                        for t in st.targets:
+                            if isinstance(t, ast.Attribute) and isinstance(t.value, ast.Name) and t.value.id == 'self' and _yields_oneshot(src, m, cname, st.value):
+                                stored[t.attr] = (mn, st)
+            bad = None
+            for attr, (mn, st) in sorted(stored.items()):
+                for mn2, f in meths.items():
+                    for n in ast.walk(f):
+                        it = None
+                        if isinstance(n, ast.For):
+                            it = n.iter
+                        elif isinstance(n, ast.comprehension):
+                            it = n.iter
+                        elif isinstance(n, ast.Call) and dotted(n.func) in ('list', 'tuple', 'sorted', 'enumerate', 'zip', 'sum', 'max', 'min', 'next'):
+                            it = n
+                        if it is None:
+                            continue
+                        if any(isinstance(x, ast.Attribute) and x.attr == attr and isinstance(x.value, ast.Name) and x.value.id == 'self' and isinstance(x.ctx, ast.Load) for x in ast.walk(it)):
+                            bad = bad or (attr, mn, st, mn2, api.stmt_of(it) if not isinstance(it, ast.stmt) else it)
+            where = 'src/PseudoNetCDF/%s %s' % (m.relpath, cname)
+            if bad:
+                attr, mn, st, mn2, use = bad
+                ctx.violation(Finding(rule, m.relpath, '%s.%s' % (cname, mn), st,
+                                      'self.%s holds a one-shot iterator (%s) and %s iterates it: the first read exhausts it, so every later read through the same reader object iterates '
+                                      'nothing and returns its initial (zero) array' % (attr, norm(st.value)[:40], mn2)), oid='%s.%s' % (cname, attr))
+            else:
+                ctx.ok(rule, cname, where, '%d methods, no generator stored in the instance' % len(meths))
+    return ncls
+
+
 def check_scan_eof(ctx, rp, q, rule='R-SCANEOF'):
     """a loop that scans records with <rf>.next() and continues on a condition over <rf>.record_size must be able to leave at end of
     file: RecordFile.next() (read from its source) does not raise there and leaves record_size as it was, so such a loop never ends
@@ -591,6 +677,8 @@ def run(ctx):
     check_windcount(ctx)
     ctx.rule('R-SCANEOF', 'record scans driven by record_size can leave at end of file (RecordFile.next() is silent there)')
     check_scan_eof(ctx, CAMX + 'wind/Read.py', 'wind.__gettimestep')
+    ctx.rule('R-ONESHOT', 'record readers: no generator (one-shot iterator) is stored in the instance and iterated by a method that can run more than once')
+    ctx.floor('reader classes scanned by R-ONESHOT', check_stored_generators(ctx), 6)
     ctx.rule('R-STEPTILE', 'memmap met readers: TSTEP = records / (records per step), with the records per step that the layer count and the reshape of the variable getter imply')
     ctx.floor('readers judged by R-STEPTILE', sum(check_step_tile(ctx, f_, c_) for f_, c_ in (('temperature', 'temperature'), ('height_pressure', 'height_pressure'))), 2)
     # ---------------- R-EODUNIT: one end-of-day constant per record reader (the unit of its time values)
@@ -657,6 +745,26 @@ def run(ctx):
                     else:
                         ctx.undec('R-STEPARG', '%s:%s@%d' % (fmt, q, c.lineno), 'src/PseudoNetCDF/%s %s' % (m.relpath, q), 'step argument %s not recognised as the file step' % norm(stp))
     ctx.floor('timerange calls in the record readers', nsa, 5)
+    # ---------------- R-TIMEORIGIN: the record offset of a time is measured from the file's start date AND start time
+    ctx.rule('R-TIMEORIGIN', "record readers: the elapsed time that positions a record is timediff((start_date, start_time), (d, t)) - measured from the file's own first time")
+    nto = 0
+    for fmt in ('uamiv', 'height_pressure', 'wind', 'one3d', 'point_source'):
+        m = src.mod(CAMX + fmt + '/Read.py')
+        for q, fn in sorted(m.functions.items()):
+            if not q.endswith('__timerecords') or '<locals>' in q:
+                continue
+            for c in ast.walk(fn):
+                if isinstance(c, ast.Call) and isinstance(c.func, ast.Name) and c.func.id == 'timediff' and c.args:
+                    nto += 1
+                    a0 = c.args[0]
+                    wq = 'src/PseudoNetCDF/%s %s' % (m.relpath, q)
+                    if isinstance(a0, ast.Tuple) and len(a0.elts) == 2 and norm(a0.elts[0]) == 'self.start_date' and norm(a0.elts[1]) == 'self.start_time':
+                        ctx.ok('R-TIMEORIGIN', '%s:%s' % (fmt, q), wq, norm(a0))
+                    else:
+                        ctx.violation(Finding('R-TIMEORIGIN', m.relpath, q, api.stmt_of(c), 'the elapsed time is measured from %s instead of (self.start_date, self.start_time): for a file that does not '
+                                              'start at that instant every record is looked up start_time / time_step steps too far (data of a later step, too few steps)' % norm(a0)),
+                                      oid='%s:%s' % (fmt, q))
+    ctx.floor('timediff calls in __timerecords judged by R-TIMEORIGIN', nto, 5)
     # ---------------- R-DATAWINDOW: temperature record reader: byte offset and window of the mapped data = what the record layout says
     ctx.rule('R-DATAWINDOW', 'temperature Read.py: position offset + dropped leading words = marker + id (12 bytes); mapped words - dropped words = cells of the record')
     tm_ = src.mod(CAMX + 'temperature/Read.py')
